@@ -27,18 +27,18 @@ theorem inferKind_eq (t : Tag) : inferKindT t = inferKind t := by
   | none => simp [inferKindT, inferKind]
   | ty k => cases k <;> simp [inferKindT, inferKind, Kind.isInstanceAny, Kind.subclass, Tag.typeOf]
 
+/-- on an exact instance of class `v`, `infer_kind` names `v` itself (so classifying a later element with `infer_kind`, as
+    `promote_with` does since the repair of the subclass-instance defect, is classifying it by its type) -/
+theorem inferKind_exact (v : Kind) : inferKindT (Tag.ty v) = some v := by
+  cases v <;> simp [inferKindT, Kind.isInstanceAny, Kind.subclass, Tag.typeOf]
+
 /-- `validate_scalar` as translated accepts exactly what the model's `validates` accepts -/
 theorem validates_eq (t : Tag) (d : DType) : validatesT t d = validates d t := by
   obtain ⟨k, n⟩ := d
   cases t with
   | none => cases n <;> simp [validatesT, validates]
   | ty v =>
-    cases k <;> cases v <;> simp [validatesT, validates, Tag.typeOf] <;> grind
-
-/-- on an exact instance of class `v`, `infer_kind` names `v` itself (so classifying a later element with `infer_kind`, as
-    `promote_with` does since the repair of the subclass-instance defect, is classifying it by its type) -/
-theorem inferKind_exact (v : Kind) : inferKindT (Tag.ty v) = some v := by
-  cases v <;> simp [inferKindT, Kind.isInstanceAny, Kind.subclass, Tag.typeOf]
+    cases k <;> cases v <;> simp [validatesT, inferKind_exact, validates, Tag.typeOf] <;> grind
 
 /-- `DataType.promote_with` as translated = the model's `promote` -/
 theorem promoteWith_eq (d : DType) (t : Tag) : promoteWithT d t = promote d t := by
